@@ -147,3 +147,475 @@ Section Calls.
   Qed.
 End Calls.
 
+
+(* ================================================================ scripts that never edit *)
+Definition ne_action (a : action) : Prop := a = Idle \/ a = Skip \/ a = Break.
+
+Definition script_ne (sc : script) : Prop := forall i p a, In (i, p, a) sc -> ne_action a.
+
+Lemma lookup_ne sc id ph : script_ne sc -> ne_action (lookup_script sc id ph).
+Proof.
+  intro H. induction sc as [|[[i p] a] r IH]; cbn [lookup_script].
+  - left. reflexivity.
+  - destruct ((i =? id) && phase_eqb p ph).
+    + apply (H i p a). left. reflexivity.
+    + apply IH. intros i' p' a' Hin. apply (H i' p' a'). right. exact Hin.
+Qed.
+
+(* ================================================================ one visitor alone *)
+(* the (phase, node id) calls a scripted visitor receives from visit(), and whether it broke off *)
+Fixpoint solo_tree (sc : script) (t : tree) : list (phase * N) * bool :=
+  match t with
+  | Node _ i ss =>
+    match lookup_script sc i Enter with
+    | Break => ([(Enter, i)], true)
+    | Skip => ([(Enter, i)], false)
+    | _ =>
+      let '(cs, br) := solo_slots sc ss in
+      if br then ((Enter, i) :: cs, true)
+      else match lookup_script sc i Leave with
+           | Break => ((Enter, i) :: cs ++ [(Leave, i)], true)
+           | _ => ((Enter, i) :: cs ++ [(Leave, i)], false)
+           end
+    end
+  end
+with solo_slots (sc : script) (ss : slots) : list (phase * N) * bool :=
+  match ss with
+  | SNil => ([], false)
+  | SCons sl r =>
+    let '(c1, b1) := match sl with
+                     | SNone => ([], false)
+                     | SOne c => solo_tree sc c
+                     | SArr l => solo_trees sc l
+                     end in
+    if b1 then (c1, true)
+    else let '(c2, b2) := solo_slots sc r in (c1 ++ c2, b2)
+  end
+with solo_trees (sc : script) (l : trees) : list (phase * N) * bool :=
+  match l with
+  | TNil => ([], false)
+  | TCons c r =>
+    let '(c1, b1) := solo_tree sc c in
+    if b1 then (c1, true)
+    else let '(c2, b2) := solo_trees sc r in (c1 ++ c2, b2)
+  end.
+
+Definition proj_log (lg : list call) : list (phase * N) := map (fun c => (c_phase c, c_id c)) lg.
+
+Lemma proj_log_cons ph id kd k p n a lg :
+  proj_log (mkCall ph id kd k p n a :: lg) = (ph, id) :: proj_log lg.
+Proof. reflexivity. Qed.
+
+Section Solo.
+  Variable sc : script.
+  Hypothesis Hne : script_ne sc.
+
+  Notation dec := (scripted sc).
+
+  (* log in the state is latest-first *)
+  Definition solo_ok (rec : visit_fn unit) (t : tree) : Prop :=
+    forall k p n h s,
+      fst (rec t k p n h s) = (if snd (solo_tree sc t) then RBreak else RKeep) /\
+      proj_log (snd (snd (rec t k p n h s))) = rev (fst (solo_tree sc t)) ++ proj_log (snd s).
+
+  Lemma solo_visit_tree fuel :
+    forall t, (depth_tree t <= fuel)%nat -> solo_ok (visit_tree unit dec fuel) t.
+  Proof.
+    induction fuel as [|f IH].
+    - intros [k i ss] H. cbn in H. lia.
+    - set (rec := visit_tree unit dec f) in *.
+      assert (HT : forall l, (depth_trees l <= f)%nat -> forall j p n s,
+                fst (vtrees unit rec l j p n s)
+                = (if snd (solo_trees sc l) then Some None else Some (Some (l, false))) /\
+                proj_log (snd (snd (vtrees unit rec l j p n s)))
+                = rev (fst (solo_trees sc l)) ++ proj_log (snd s)).
+      { induction l as [|c r IHl]; intros Hd j p n s; cbn [vtrees solo_trees] in *.
+        - cbn. auto.
+        - cbn [depth_trees] in Hd.
+          destruct (IH c ltac:(lia) (KIdx j) (p ++ [KIdx j]) n true s) as [H1 H2].
+          destruct (rec c (KIdx j) (p ++ [KIdx j]) n true s) as [rr s1]. cbn [fst snd] in H1, H2.
+          destruct (solo_tree sc c) as [c1 b1]. cbn [fst snd] in *.
+          destruct b1; subst rr.
+          + cbn [fst snd]. auto.
+          + destruct (IHl ltac:(lia) (S j) p n s1) as [K1 K2].
+            destruct (vtrees unit rec r (S j) p n s1) as [o s2]. cbn [fst snd] in K1, K2.
+            destruct (solo_trees sc r) as [c2 b2]. cbn [fst snd] in *.
+            destruct b2; subst o; cbn [fst snd]; rewrite K2, H2, rev_app_distr, app_assoc; auto. }
+      assert (HS : forall ss, (depth_slots ss <= f)%nat -> forall i p n s,
+                fst (vslots unit rec ss i p n s)
+                = (if snd (solo_slots sc ss) then Some None else Some (Some (ss, false))) /\
+                proj_log (snd (snd (vslots unit rec ss i p n s)))
+                = rev (fst (solo_slots sc ss)) ++ proj_log (snd s)).
+      { induction ss as [|sl r IHs]; intros Hd i p n s; cbn [vslots solo_slots] in *.
+        - cbn. auto.
+        - cbn [depth_slots] in Hd.
+          destruct sl as [|c|l]; cbn [depth_slot] in Hd.
+          + destruct (IHs ltac:(lia) (S i) p n s) as [K1 K2].
+            destruct (vslots unit rec r (S i) p n s) as [o s2]. cbn [fst snd] in K1, K2.
+            destruct (solo_slots sc r) as [c2 b2]. cbn [fst snd app] in *.
+            destruct b2; subst o; cbn [fst snd orb]; auto.
+          + destruct (IH c ltac:(lia) (KName i) (p ++ [KName i]) n true s) as [H1 H2].
+            destruct (rec c (KName i) (p ++ [KName i]) n true s) as [rr s1]. cbn [fst snd] in H1, H2.
+            destruct (solo_tree sc c) as [c1 b1]. cbn [fst snd] in *.
+            destruct b1; subst rr.
+            * cbn [fst snd]. auto.
+            * destruct (IHs ltac:(lia) (S i) p n s1) as [K1 K2].
+              destruct (vslots unit rec r (S i) p n s1) as [o s2]. cbn [fst snd] in K1, K2.
+              destruct (solo_slots sc r) as [c2 b2]. cbn [fst snd] in *.
+              destruct b2; subst o; cbn [fst snd orb]; rewrite K2, H2, rev_app_distr, app_assoc; auto.
+          + destruct (HT l ltac:(lia) 0%nat (p ++ [KName i]) (S n) s) as [H1 H2].
+            destruct (vtrees unit rec l 0%nat (p ++ [KName i]) (S n) s) as [o1 s1]. cbn [fst snd] in H1, H2.
+            destruct (solo_trees sc l) as [c1 b1]. cbn [fst snd] in *.
+            destruct b1; subst o1.
+            * cbn [fst snd]. auto.
+            * destruct (IHs ltac:(lia) (S i) p n s1) as [K1 K2].
+              destruct (vslots unit rec r (S i) p n s1) as [o s2]. cbn [fst snd] in K1, K2.
+              destruct (solo_slots sc r) as [c2 b2]. cbn [fst snd] in *.
+              destruct b2; subst o; cbn [fst snd orb]; rewrite K2, H2, rev_app_distr, app_assoc; auto. }
+      intros [kd id ss] Hd k p n h s. cbn [depth_tree] in Hd.
+      cbn [visit_tree]. fold rec. unfold node_step, do_call, scripted. cbn [fst snd tid tkindof solo_tree].
+      destruct (lookup_ne sc id Enter Hne) as [E|[E|E]]; rewrite E; cbn [fst snd].
+      + (* idle: children, then leave *)
+        unfold go. cbn [tslots].
+        match goal with |- context [vslots unit rec ss 0%nat p ?m ?s0] =>
+          destruct (HS ss ltac:(lia) 0%nat p m s0) as [K1 K2];
+          destruct (vslots unit rec ss 0%nat p m s0) as [o s2] end.
+        cbn [fst snd] in K1, K2. rewrite proj_log_cons in K2.
+        destruct (solo_slots sc ss) as [cs br]. cbn [fst snd] in *.
+        destruct br; subst o.
+        * cbn [fst snd]. split; auto. rewrite K2. cbn [rev]. rewrite <- app_assoc. reflexivity.
+        * cbn [orb]. unfold do_call, scripted. cbn [fst snd tid tkindof].
+          destruct (lookup_ne sc id Leave Hne) as [L|[L|L]]; rewrite L; cbn [fst snd];
+            (split; [reflexivity|]); rewrite proj_log_cons, K2; cbn [rev];
+            rewrite rev_app_distr; cbn [rev app]; rewrite <- !app_assoc; reflexivity.
+      + split; [reflexivity|]. rewrite proj_log_cons. reflexivity.
+      + split; [reflexivity|]. rewrite proj_log_cons. reflexivity.
+  Qed.
+
+  Theorem solo_log fuel root : (depth_tree root <= fuel)%nat ->
+    proj_log (snd (visit_scripted fuel root sc)) = fst (solo_tree sc root).
+  Proof.
+    intro H. unfold visit_scripted, visit.
+    destruct (solo_visit_tree fuel root H KNone [] 0%nat false (tt, [])) as [_ H2].
+    destruct (visit_tree unit dec fuel root KNone [] 0%nat false (tt, [])) as [r [u lg]].
+    cbn [fst snd] in *. cbn [proj_log map] in H2. rewrite app_nil_r in H2.
+    unfold proj_log in *. rewrite map_rev, H2, rev_involutive. reflexivity.
+  Qed.
+End Solo.
+
+(* ================================================================ one visitor inside ParallelVisitor *)
+(* what ParallelVisitor does for one visitor at one call: new skipping entry, the sub-call if made *)
+Definition vstep (sc : script) (ph : phase) (t : tree) (sk : skipstate) : skipstate * list (phase * N) :=
+  match sk with
+  | SkNone =>
+    match ph with
+    | Enter =>
+      match lookup_script sc (tid t) Enter with
+      | Skip => (SkNode (tid t), [(Enter, tid t)])
+      | Break => (SkBreak, [(Enter, tid t)])
+      | _ => (SkNone, [(Enter, tid t)])
+      end
+    | Leave =>
+      match lookup_script sc (tid t) Leave with
+      | Break => (SkBreak, [(Leave, tid t)])
+      | _ => (SkNone, [(Leave, tid t)])
+      end
+    end
+  | SkNode id =>
+    match ph with
+    | Enter => (sk, [])
+    | Leave => ((if id =? tid t then SkNone else sk), [])
+    end
+  | SkBreak => (sk, [])
+  end.
+
+Fixpoint vrun (sc : script) (cs : list (phase * tree)) (sk : skipstate) : skipstate * list (phase * N) :=
+  match cs with
+  | [] => (sk, [])
+  | (ph, t) :: r =>
+    let '(sk1, c1) := vstep sc ph t sk in
+    let '(sk2, c2) := vrun sc r sk1 in
+    (sk2, c1 ++ c2)
+  end.
+
+Lemma vrun_app sc a b sk :
+  vrun sc (a ++ b) sk = (fst (vrun sc b (fst (vrun sc a sk))), snd (vrun sc a sk) ++ snd (vrun sc b (fst (vrun sc a sk)))).
+Proof.
+  revert sk. induction a as [|[ph t] a IH]; intro sk; cbn [app vrun].
+  - cbn. destruct (vrun sc b sk); reflexivity.
+  - destruct (vstep sc ph t sk) as [sk1 c1]. rewrite IH.
+    destruct (vrun sc a sk1) as [sk2 c2]. cbn [fst snd].
+    destruct (vrun sc b sk2) as [sk3 c3]. cbn [fst snd]. rewrite app_assoc. reflexivity.
+Qed.
+
+(* pre-order node ids *)
+Fixpoint ids_tree (t : tree) : list N :=
+  match t with Node _ i ss => i :: ids_slots ss end
+with ids_slots (ss : slots) : list N :=
+  match ss with
+  | SNil => []
+  | SCons sl r =>
+    (match sl with SNone => [] | SOne c => ids_tree c | SArr l => ids_trees l end) ++ ids_slots r
+  end
+with ids_trees (l : trees) : list N :=
+  match l with
+  | TNil => []
+  | TCons c r => ids_tree c ++ ids_trees r
+  end.
+
+Lemma NoDup_app_l {A} (a b : list A) : NoDup (a ++ b) -> NoDup a.
+Proof.
+  induction a as [|x a IH]; cbn; intro H; [constructor|].
+  inversion H; subst. constructor; auto. intro Hc. apply H2. apply in_or_app. left. exact Hc.
+Qed.
+
+Lemma NoDup_app_r {A} (a b : list A) : NoDup (a ++ b) -> NoDup b.
+Proof. induction a as [|x a IH]; cbn; intro H; auto. inversion H; auto. Qed.
+
+Section Inside.
+  Variable sc : script.
+  Hypothesis Hne : script_ne sc.
+
+  (* over the calls of a subtree: from "not skipping" the visitor makes exactly its solo calls;
+     while it skips a node outside the subtree, or after it broke, it makes none *)
+  Definition inside_ok (cs : list (phase * tree)) (ids : list N) (solo : list (phase * N) * bool) : Prop :=
+    vrun sc cs SkNone = ((if snd solo then SkBreak else SkNone), fst solo) /\
+    vrun sc cs SkBreak = (SkBreak, []) /\
+    forall j, ~ In j ids -> vrun sc cs (SkNode j) = (SkNode j, []).
+
+  Lemma inside_nil : inside_ok [] [] ([], false).
+  Proof. repeat split. Qed.
+
+  Lemma inside_app cs1 ids1 s1 cs2 ids2 s2 :
+    inside_ok cs1 ids1 s1 -> inside_ok cs2 ids2 s2 ->
+    inside_ok (cs1 ++ cs2) (ids1 ++ ids2)
+              (if snd s1 then (fst s1, true) else (fst s1 ++ fst s2, snd s2)).
+  Proof.
+    intros [A1 [A2 A3]] [B1 [B2 B3]]. repeat split.
+    - rewrite vrun_app, A1. cbn [fst snd]. destruct (snd s1); cbn [fst snd].
+      + rewrite B2. cbn. rewrite app_nil_r. reflexivity.
+      + rewrite B1. reflexivity.
+    - rewrite vrun_app, A2. cbn [fst snd]. rewrite B2. reflexivity.
+    - intros j Hj. rewrite vrun_app, A3; [|intro Hc; apply Hj; apply in_or_app; left; exact Hc].
+      cbn [fst snd]. rewrite B3; [reflexivity|]. intro Hc. apply Hj. apply in_or_app. right. exact Hc.
+  Qed.
+
+  Lemma inside_tree :
+    forall t, NoDup (ids_tree t) -> inside_ok (calls_tree t) (ids_tree t) (solo_tree sc t).
+  Proof.
+    apply (tree_mut
+             (fun t => NoDup (ids_tree t) -> inside_ok (calls_tree t) (ids_tree t) (solo_tree sc t))
+             (fun ss => NoDup (ids_slots ss) -> inside_ok (calls_slots ss) (ids_slots ss) (solo_slots sc ss))
+             (fun sl => NoDup (match sl with SNone => [] | SOne c => ids_tree c | SArr l => ids_trees l end) ->
+                        inside_ok (match sl with SNone => [] | SOne c => calls_tree c | SArr l => calls_trees l end)
+                                  (match sl with SNone => [] | SOne c => ids_tree c | SArr l => ids_trees l end)
+                                  (match sl with SNone => ([], false) | SOne c => solo_tree sc c | SArr l => solo_trees sc l end))
+             (fun l => NoDup (ids_trees l) -> inside_ok (calls_trees l) (ids_trees l) (solo_trees sc l))).
+    - (* node *)
+      intros k i ss IH Hnd. cbn [ids_tree] in Hnd. inversion Hnd as [|? ? Hni Hss]; subst.
+      destruct (IH Hss) as [A1 [A2 A3]].
+      cbn [calls_tree ids_tree solo_tree].
+      set (t := Node k i ss).
+      assert (Hleave : forall sk, vrun sc [(Leave, t)] sk = (fst (vstep sc Leave t sk), snd (vstep sc Leave t sk))).
+      { intro sk. cbn [vrun]. destruct (vstep sc Leave t sk). cbn. rewrite app_nil_r. reflexivity. }
+      repeat split.
+      + (* from not skipping *)
+        cbn [vrun vstep]. cbn [tid t].
+        destruct (lookup_ne sc i Enter Hne) as [E|[E|E]]; rewrite E.
+        * (* idle *)
+          rewrite vrun_app, A1. cbn [fst snd]. destruct (solo_slots sc ss) as [cs br]. cbn [fst snd].
+          destruct br.
+          -- rewrite Hleave. cbn [vstep fst snd]. rewrite app_nil_r. reflexivity.
+          -- rewrite Hleave. cbn [vstep fst snd tid t].
+             destruct (lookup_ne sc i Leave Hne) as [L|[L|L]]; rewrite L; reflexivity.
+        * (* skip: nothing until the leave of this node *)
+          rewrite vrun_app, (A3 i Hni). cbn [fst snd]. rewrite Hleave. cbn [vstep fst snd tid t].
+          rewrite N.eqb_refl. reflexivity.
+        * (* break *)
+          rewrite vrun_app, A2. cbn [fst snd]. rewrite Hleave. reflexivity.
+      + cbn [vrun vstep]. rewrite vrun_app, A2. cbn [fst snd]. rewrite Hleave. reflexivity.
+      + intros j Hj. cbn [vrun vstep]. rewrite vrun_app, A3; [|intro Hc; apply Hj; right; exact Hc].
+        cbn [fst snd]. rewrite Hleave. cbn [vstep fst snd tid t].
+        destruct (j =? i) eqn:Eq; [|reflexivity].
+        apply N.eqb_eq in Eq. subst j. exfalso. apply Hj. left. reflexivity.
+    - intros _. apply inside_nil.
+    - (* slots *)
+      intros sl IHsl r IHr Hnd. cbn [ids_slots calls_slots solo_slots] in *.
+      pose proof (inside_app _ _ _ _ _ _ (IHsl (NoDup_app_l _ _ Hnd)) (IHr (NoDup_app_r _ _ Hnd))) as H.
+      destruct (match sl with SNone => ([], false) | SOne c => solo_tree sc c | SArr l => solo_trees sc l end)
+        as [c1 b1]. cbn [fst snd] in H.
+      destruct b1; [exact H|]. destruct (solo_slots sc r) as [c2 b2]. exact H.
+    - intros _. apply inside_nil.
+    - intros t IH H. exact (IH H).
+    - intros l IH H. exact (IH H).
+    - intros _. apply inside_nil.
+    - (* trees *)
+      intros t IHt r IHr Hnd. cbn [ids_trees calls_trees solo_trees] in *.
+      pose proof (inside_app _ _ _ _ _ _ (IHt (NoDup_app_l _ _ Hnd)) (IHr (NoDup_app_r _ _ Hnd))) as H.
+      destruct (solo_tree sc t) as [c1 b1]. cbn [fst snd] in H.
+      destruct b1; [exact H|]. destruct (solo_trees sc r) as [c2 b2]. exact H.
+  Qed.
+End Inside.
+
+(* ================================================================ ParallelVisitor = every visitor by itself *)
+Fixpoint pstep (scs : list script) (sks : list skipstate) (i : nat) (ph : phase) (t : tree)
+  : list skipstate * list subcall :=
+  match scs, sks with
+  | sc :: scs', sk :: sks' =>
+    let '(sk', cs) := vstep sc ph t sk in
+    let '(sks'', subs) := pstep scs' sks' (S i) ph t in
+    (sk' :: sks'', map (fun c => (i, fst c, snd c)) cs ++ subs)
+  | _, _ => (sks, [])
+  end.
+
+Lemma par_enter_spec t : forall scs sks i, Forall script_ne scs ->
+  par_enter scs sks i t = (Idle, fst (pstep scs sks i Enter t), snd (pstep scs sks i Enter t)).
+Proof.
+  induction scs as [|sc scs IH]; intros sks i Hne; cbn [par_enter pstep].
+  - reflexivity.
+  - destruct sks as [|sk sks]; [reflexivity|].
+    inversion Hne as [|? ? Hsc Hr]; subst. specialize (IH sks (S i) Hr).
+    destruct (pstep scs sks (S i) Enter t) as [sks2 subs2]. cbn [fst snd] in IH.
+    destruct sk as [|id|]; cbn [vstep].
+    + destruct (lookup_ne sc (tid t) Enter Hsc) as [E|[E|E]]; rewrite E, IH; reflexivity.
+    + rewrite IH. reflexivity.
+    + rewrite IH. reflexivity.
+Qed.
+
+Lemma par_leave_spec t : forall scs sks i, Forall script_ne scs ->
+  par_leave scs sks i t = (Idle, fst (pstep scs sks i Leave t), snd (pstep scs sks i Leave t)).
+Proof.
+  induction scs as [|sc scs IH]; intros sks i Hne; cbn [par_leave pstep].
+  - reflexivity.
+  - destruct sks as [|sk sks]; [reflexivity|].
+    inversion Hne as [|? ? Hsc Hr]; subst. specialize (IH sks (S i) Hr).
+    destruct (pstep scs sks (S i) Leave t) as [sks2 subs2]. cbn [fst snd] in IH.
+    destruct sk as [|id|]; cbn [vstep].
+    + destruct (lookup_ne sc (tid t) Leave Hsc) as [E|[E|E]]; rewrite E, IH; reflexivity.
+    + rewrite IH. reflexivity.
+    + rewrite IH. reflexivity.
+Qed.
+
+(* the whole parallel run over a call list *)
+Fixpoint prun (scs : list script) (cs : list (phase * tree)) (sks : list skipstate)
+  : list skipstate * list subcall :=
+  match cs with
+  | [] => (sks, [])
+  | (ph, t) :: r =>
+    let '(sks1, s1) := pstep scs sks 0%nat ph t in
+    let '(sks2, s2) := prun scs r sks1 in
+    (sks2, s1 ++ s2)
+  end.
+
+Lemma parallel_ib scs : Forall script_ne scs -> idle_or_break _ (parallel scs).
+Proof.
+  intros Hne ph t ps. unfold parallel. destruct ph.
+  - rewrite (par_enter_spec t scs (fst ps) 0%nat Hne). left. reflexivity.
+  - rewrite (par_leave_spec t scs (fst ps) 0%nat Hne). left. reflexivity.
+Qed.
+
+Lemma run_parallel scs : Forall script_ne scs -> forall cs sks acc,
+  snd (run_calls _ (parallel scs) cs (sks, acc))
+  = (fst (prun scs cs sks), rev (snd (prun scs cs sks)) ++ acc).
+Proof.
+  intro Hne. induction cs as [|[ph t] cs IH]; intros sks acc; cbn [run_calls prun].
+  - reflexivity.
+  - unfold parallel at 1. cbn [fst snd].
+    assert (Hstep : (match ph with
+                     | Enter => par_enter scs sks 0%nat t
+                     | Leave => par_leave scs sks 0%nat t
+                     end) = (Idle, fst (pstep scs sks 0%nat ph t), snd (pstep scs sks 0%nat ph t))).
+    { destruct ph; [apply par_enter_spec | apply par_leave_spec]; exact Hne. }
+    rewrite Hstep. destruct (pstep scs sks 0%nat ph t) as [sks1 s1]. cbn [fst snd].
+    rewrite IH. destruct (prun scs cs sks1) as [sks2 s2]. cbn [fst snd].
+    rewrite rev_app_distr, <- app_assoc. reflexivity.
+Qed.
+
+(* the sub-calls of visitor [j], as (phase, node id) *)
+Definition projsub (j : nat) (subs : list subcall) : list (phase * N) :=
+  map (fun x => (snd (fst x), snd x)) (filter (fun x => (fst (fst x) =? j)%nat) subs).
+
+Lemma projsub_app j a b : projsub j (a ++ b) = projsub j a ++ projsub j b.
+Proof. unfold projsub. rewrite filter_app, map_app. reflexivity. Qed.
+
+Lemma projsub_tag_same j (cs : list (phase * N)) :
+  projsub j (map (fun c => (j, fst c, snd c)) cs) = cs.
+Proof.
+  unfold projsub. induction cs as [|[ph id] cs IH]; cbn [map filter fst snd]; auto.
+  rewrite Nat.eqb_refl. cbn [map fst snd]. f_equal. exact IH.
+Qed.
+
+Lemma projsub_tag_other j i (cs : list (phase * N)) : i <> j ->
+  projsub j (map (fun c => (i, fst c, snd c)) cs) = [].
+Proof.
+  intro H. unfold projsub. induction cs as [|[ph id] cs IH]; cbn [map filter fst snd]; auto.
+  destruct (i =? j)%nat eqn:E; [apply Nat.eqb_eq in E; contradiction | exact IH].
+Qed.
+
+Lemma pstep_tags ph t : forall scs sks b j, (j < b)%nat -> projsub j (snd (pstep scs sks b ph t)) = [].
+Proof.
+  induction scs as [|sc scs IH]; intros sks b j Hj; cbn [pstep]; [reflexivity|].
+  destruct sks as [|sk sks]; [reflexivity|].
+  destruct (vstep sc ph t sk) as [sk' cs]. specialize (IH sks (S b) j ltac:(lia)).
+  destruct (pstep scs sks (S b) ph t) as [sks2 subs2]. cbn [snd] in *.
+  rewrite projsub_app, IH, projsub_tag_other by lia. reflexivity.
+Qed.
+
+Lemma pstep_proj ph t : forall scs sks b i sc sk,
+  nth_error scs i = Some sc -> nth_error sks i = Some sk ->
+  nth_error (fst (pstep scs sks b ph t)) i = Some (fst (vstep sc ph t sk)) /\
+  projsub (b + i) (snd (pstep scs sks b ph t)) = snd (vstep sc ph t sk).
+Proof.
+  induction scs as [|sc0 scs IH]; intros sks b i sc sk Hsc Hsk.
+  - destruct i; discriminate.
+  - destruct sks as [|sk0 sks]; [destruct i; discriminate|]. cbn [pstep].
+    destruct i as [|i]; cbn [nth_error] in Hsc, Hsk.
+    + inversion Hsc; inversion Hsk; subst.
+      destruct (vstep sc ph t sk) as [sk' cs].
+      pose proof (pstep_tags ph t scs sks (S b) b ltac:(lia)) as Ht.
+      destruct (pstep scs sks (S b) ph t) as [sks2 subs2]. cbn [fst snd nth_error] in *.
+      rewrite Nat.add_0_r, projsub_app, Ht, projsub_tag_same, app_nil_r. auto.
+    + destruct (vstep sc0 ph t sk0) as [sk' cs].
+      destruct (IH sks (S b) i sc sk Hsc Hsk) as [I1 I2].
+      destruct (pstep scs sks (S b) ph t) as [sks2 subs2]. cbn [fst snd nth_error] in *.
+      split; auto. rewrite projsub_app, projsub_tag_other by lia. cbn [app].
+      replace (b + S i)%nat with (S b + i)%nat by lia. exact I2.
+Qed.
+
+Lemma prun_proj scs i sc : nth_error scs i = Some sc -> forall cs sks sk,
+  nth_error sks i = Some sk ->
+  projsub i (snd (prun scs cs sks)) = snd (vrun sc cs sk).
+Proof.
+  intro Hsc. induction cs as [|[ph t] cs IH]; intros sks sk Hsk; cbn [prun vrun].
+  - reflexivity.
+  - destruct (pstep_proj ph t scs sks 0%nat i sc sk Hsc Hsk) as [P1 P2]. cbn [plus] in P2.
+    destruct (pstep scs sks 0%nat ph t) as [sks1 s1]. cbn [fst snd] in *.
+    destruct (vstep sc ph t sk) as [sk1 c1]. cbn [fst snd] in *.
+    specialize (IH sks1 sk1 P1).
+    destruct (prun scs cs sks1) as [sks2 s2]. destruct (vrun sc cs sk1) as [sk2 c2]. cbn [snd] in *.
+    rewrite projsub_app, P2, IH. reflexivity.
+Qed.
+
+(* ParallelVisitor projection: inside a parallel run of non-editing scripted visitors, visitor i
+   receives exactly the calls (phase, node) it receives when it visits the tree alone - also when
+   it or any other visitor skips subtrees or breaks off.  Node ids must be distinct (the
+   implementation compares node objects by identity). *)
+Theorem parallel_projection fuel root scs i sc :
+  Forall script_ne scs -> NoDup (ids_tree root) -> (depth_tree root <= fuel)%nat ->
+  nth_error scs i = Some sc ->
+  projsub i (snd (visit_parallel fuel root scs)) = proj_log (snd (visit_scripted fuel root sc)).
+Proof.
+  intros Hne Hnd Hd Hi.
+  assert (Hsc : script_ne sc).
+  { rewrite Forall_forall in Hne. apply Hne. eapply nth_error_In; eauto. }
+  rewrite (solo_log sc Hsc fuel root Hd).
+  unfold visit_parallel.
+  pose proof (visit_calls _ (parallel scs) (parallel_ib scs Hne) fuel root
+                          (map (fun _ => SkNone) scs, []) Hd) as Hv.
+  destruct (visit pstate (parallel scs) fuel root (map (fun _ => SkNone) scs, [])) as [[r ps] lg].
+  cbn [fst snd] in *. subst ps. rewrite (run_parallel scs Hne). cbn [snd].
+  rewrite app_nil_r, rev_involutive.
+  rewrite (prun_proj scs i sc Hi (calls_tree root) (map (fun _ => SkNone) scs) SkNone).
+  - destruct (inside_tree sc Hsc root Hnd) as [A1 _]. rewrite A1. reflexivity.
+  - rewrite nth_error_map, Hi. reflexivity.
+Qed.
